@@ -43,6 +43,13 @@ inline uint64_t hashStr(const std::string& s) { uint64_t h = 1469598103934665603
 struct VerInfo { const char* n; uint32_t file, user, stream; };
 extern const VerInfo VERS[];
 extern const int NVERS;
+// additional points inside the Fallout 3 version range (20.2.0.7, user 11, stream 12..82): one below, at and above every stream value the
+// library's Sync code compares against (14, 16, 21, 24, 26, 28, 34, 76), so that a gate that is off by one has a file on the wrong side of it.
+// Used by the format-level monitors (C01, C05, C07, C08) on top of VERS.
+extern const VerInfo XVERS[];
+extern const int NXVERS;
+inline const VerInfo& verAt(size_t i) { return i < (size_t)NVERS ? VERS[i] : XVERS[i - (size_t)NVERS]; }
+inline size_t nAllVers() { return (size_t)NVERS + (size_t)NXVERS; }
 inline NiVersion toNiVersion(const VerInfo& v) { return NiVersion((NiFileVersion)v.file, v.user, v.stream); }
 const VerInfo* findVer(const std::string& name);
 std::string verClass(const NiVersion& v);   // OB / FO3 / SK / SSE / FO4 / FO76 / SF / SPECIAL / other
